@@ -360,12 +360,16 @@ func write(ctx context.Context, oprot Protocol, tt *TypeMeta, gv reflect.Value) 
 			return err
 		}
 		// Go randomizes the iteration order of maps: write the entries in the
-		// order of their encoded keys so that the result is reproducible.
+		// order of their encoded keys (then values, for keys that are distinct
+		// pointers to equal data) so that the result is reproducible.
 		keys := gv.MapKeys()
 		encs := make([]string, len(keys))
 		for i, k := range keys {
 			mem := new(MemoryTransport)
 			if err := write(ctx, NewBinaryProtocol(mem), tt.KeyType, k); err != nil {
+				return err
+			}
+			if err := write(ctx, NewBinaryProtocol(mem), tt.ValueType, gv.MapIndex(k)); err != nil {
 				return err
 			}
 			encs[i] = mem.String()
